@@ -26,7 +26,7 @@ from ..cfg import explore, must_facts, canon_fact, holds
 from ..mutate import mutate, remove_stmts, replace_stmt, replace_expr, parse_stmt, parse_expr
 from ..model import AnalysisError
 from ..x_scope import own_nodes
-from ..x_flow import expanded_facts, resolve_local, unique_def
+from ..x_flow import expanded_facts, resolve_local, unique_def, concrete_paths
 
 TECHNIQUE = "syntactic timedelta lint with guard dominance on the CFG + exhaustive constant folding of the phrase arithmetic + idiom check of the digit-grouping loop"
 EXPLANATION = (
@@ -378,6 +378,15 @@ def rule_grouping(ck, fi):
         return None
 
     loops = [n for n in own_nodes(fi.node) if isinstance(n, ast.While) and _shrinks(n) is not None]
+    rule_fast_path(ck, fi, P)
+    comp_model = None
+    if not loops:
+        comp_model = _comprehension_chunks(ck, fi)
+    if comp_model is not None:
+        X, parts, order, lp = comp_model
+        prepend = order == "msf"
+        _check_join_and_sign(ck, fi, P, X, parts, prepend, lp)
+        return
     if not loops:
         # format-spec grouping: f"{value:,}" / format(value, ",") / "{:,}".format(value)
         ok = False
@@ -424,6 +433,80 @@ def rule_grouping(ck, fi):
     if take is None or shrink is None or parts is None:
         raise AnalysisError("friendly_number: chunking loop is not `parts.append(s[-k:]); s = s[:-k]` (unknown idiom)")
     ck.ob("C46.grouping", fi, lp, take == (-3, None) and shrink == (None, -3), "each step takes the last three characters and removes exactly those three (take=%s, remove=%s)" % (take, shrink), construct="chunk take=%s remove=%s" % (take, shrink))
+    _check_join_and_sign(ck, fi, P, X, parts, prepend, lp)
+
+
+def _comprehension_chunks(ck, fi):
+    """`parts = [X[lo:hi] for v in range(...)]`: the (lo, hi) pairs are folded for digit strings of length 1..10 and must cut
+    the string into groups of three counted from the right.  Returns (X, parts, 'lsf'|'msf', comprehension) or None."""
+    for n in own_nodes(fi.node):
+        if isinstance(n, ast.Assign) and len(n.targets) == 1 and isinstance(n.targets[0], ast.Name) and isinstance(n.value, ast.ListComp) and len(n.value.generators) == 1:
+            lc = n.value
+            g = lc.generators[0]
+            if not (isinstance(lc.elt, ast.Subscript) and isinstance(lc.elt.slice, ast.Slice) and lc.elt.slice.step is None and isinstance(lc.elt.value, ast.Name) and isinstance(g.target, ast.Name) and not g.ifs):
+                continue
+            X, v = lc.elt.value.id, g.target.id
+            orders = set()
+            try:
+                for L in range(1, 11):
+                    env = {X: "1" * L}
+                    pairs = []
+                    for val in q.fold(g.iter, env):
+                        e2 = dict(env)
+                        e2[v] = val
+                        lo = q.fold(lc.elt.slice.lower, e2) if lc.elt.slice.lower is not None else 0
+                        hi = q.fold(lc.elt.slice.upper, e2) if lc.elt.slice.upper is not None else L
+                        lo = lo + L if lo < 0 else lo
+                        hi = hi + L if hi < 0 else hi
+                        pairs.append((max(lo, 0), min(hi, L)))
+                    lsf = [(max(L - 3 * (k + 1), 0), L - 3 * k) for k in range((L + 2) // 3)]
+                    if pairs == lsf and pairs == lsf[::-1]:
+                        continue
+                    orders.add("lsf" if pairs == lsf else ("msf" if pairs == lsf[::-1] else "bad L=%d %s" % (L, pairs)))
+            except (q.NotFoldable, TypeError) as e:
+                raise AnalysisError("friendly_number: chunk comprehension not foldable (%s)" % e)
+            bad = sorted(o for o in orders if o.startswith("bad"))
+            ck.ob("C46.grouping", fi, lc, not bad and len(orders) == 1, "the comprehension cuts the digit string into groups of three counted from the right, for every length 1..10%s" % (": " + bad[0] if bad else ""))
+            if bad or len(orders) != 1:
+                return (X, n.targets[0].id, "lsf", lc)
+            return (X, n.targets[0].id, orders.pop(), lc)
+    return None
+
+
+def rule_fast_path(ck, fi, P):
+    """Class 'fast path decided on the wrong (signed) quantity': for the English locale, a value whose magnitude needs
+    grouping (|v| >= 1000) never leaves through a return of the ungrouped str(value)."""
+    cfg = fi.cfg
+    raw = {}
+    for n in cfg.stmt_nodes(lambda n: n.kind == "stmt" and isinstance(n.ast, ast.Return) and n.ast.value is not None):
+        v = n.ast.value
+        if (isinstance(v, ast.Call) and q.dotted(v.func) in ("str", "repr") and len(v.args) == 1 and q.dotted(v.args[0]) == P) or q.dotted(v) == P:
+            raw[n.id] = n
+    if not raw:
+        return
+    event = lambda n: "raw" if n.id in raw else ("other" if n.kind == "stmt" and isinstance(n.ast, ast.Return) else None)
+    for val in (-1234567, -1000, -999, 0, 999, 1000, 1234567):
+        def sub(e, val=val):
+            class T(ast.NodeTransformer):
+                def visit_Call(self, node):
+                    node = self.generic_visit(node)
+                    if isinstance(node.func, ast.Name) and node.func.id == "abs" and len(node.args) == 1 and q.dotted(node.args[0]) == P:
+                        return ast.Constant(value=abs(val))
+                    return node
+            return T().visit(copy.deepcopy(e))
+
+        outs = concrete_paths(fi, {P: val, "self.code": "en_US"}, event, subst=sub)
+        ends = {t[-1] for _k, t in outs if t}
+        if abs(val) >= 1000:
+            if ends == {"raw"}:
+                ck.ob("C46.grouping", fi, next(iter(raw.values())).ast, False, "value %d (English locale) needs digit grouping but is returned through the ungrouped str(value) shortcut" % val, construct="ungrouped %d" % val)
+            elif "raw" in ends:
+                raise AnalysisError("friendly_number: cannot decide by folding whether %d takes the ungrouped shortcut" % val)
+            else:
+                ck.ob("C46.grouping", fi, fi.node, True, "value %d (English locale) does not take an ungrouped shortcut" % val, construct="grouped %d" % val)
+
+
+def _check_join_and_sign(ck, fi, P, X, parts, prepend, lp):
     # the join
     joins = [c for c in q.calls(fi.node) if isinstance(c.func, ast.Attribute) and c.func.attr == "join" and c.args and parts in q.paths_in(c.args[0])]
     if len(joins) != 1:
@@ -491,6 +574,19 @@ def rule_grouping(ck, fi):
     # the sign is put back for negatives
     if all(sign_free(d.ast.value, d.id) for d in defs):
         has_minus = any(isinstance(c, ast.Constant) and isinstance(c.value, str) and "-" in c.value for c in ast.walk(fi.node) if not (isinstance(c, ast.Constant) and c is getattr(fi.node.body[0], "value", None)))
+        if not has_minus:
+            for c in q.calls(fi.node):
+                h_ = None
+                if isinstance(c.func, ast.Attribute) and q.dotted(c.func.value) in ("self", "cls", "Locale") and ck.repo.has_func(F, "Locale." + c.func.attr):
+                    h_ = ck.repo.func(F, "Locale." + c.func.attr)
+                elif isinstance(c.func, ast.Name) and ck.repo.has_func(F, c.func.id):
+                    h_ = ck.repo.func(F, c.func.id)
+                if h_ is not None and h_.qualname != fi.qualname:
+                    if any(isinstance(x, ast.Constant) and isinstance(x.value, str) and "-" in x.value for st_ in h_.node.body[1:] + h_.node.body[:1] for x in ast.walk(st_) if not (isinstance(st_, ast.Expr) and isinstance(st_.value, ast.Constant))):
+                        has_minus = True
+                        ck.use(h_)
+                    else:
+                        raise AnalysisError("friendly_number: no literal '-' here and helper %s is not understood" % h_.qualname)
         ck.ob("C46.sign-free-grouping", fi, fi.node, has_minus, "negative numbers get their minus sign back (a literal '-' is re-attached somewhere)", construct="minus-reattached")
 
 
@@ -583,6 +679,8 @@ MUTANTS = [
     ("seeded C46-adv2: aware datetimes in other zones re-labelled as UTC", _m("format_date", replace_expr(lambda n: isinstance(n, ast.Compare) and _src(n) == "date.tzinfo is None", lambda n: parse_expr("date.tzinfo is not datetime.timezone.utc"))), "C46.same-time-scale"),
     ("numeric timestamps converted in local time then labelled UTC", _m("format_date", replace_expr(lambda n: isinstance(n, ast.Call) and _src(n.func).endswith("fromtimestamp"), lambda n: ast.Call(func=n.func, args=n.args[:1], keywords=[]))), "C46.same-time-scale"),
     ("undo F26a repair: clock-skew window tested on .seconds alone", _m("format_date", replace_expr(lambda n: isinstance(n, ast.Call) and _src(n).endswith(".total_seconds()"), lambda n: ast.Attribute(value=n.func.value, attr="seconds", ctx=ast.Load()))), "C46.seconds-with-days"),
+    ("seeded C46-adv3: ungrouped shortcut decided on the signed value", _m("friendly_number", replace_expr(lambda n: isinstance(n, ast.Compare) and "self.code not in" in _src(n), lambda n: parse_expr("self.code not in ('en', 'en_US') or value < 1000"))), "C46.grouping"),
+    ("ungrouped shortcut for everything below a million", _m("friendly_number", replace_expr(lambda n: isinstance(n, ast.Compare) and "self.code not in" in _src(n), lambda n: parse_expr("self.code not in ('en', 'en_US') or abs(value) < 1000000"))), "C46.grouping"),
     ("undo F26b repair: signed text is chunked", _m("friendly_number", replace_expr(lambda n: isinstance(n, ast.Call) and _src(n) == "abs(value)", lambda n: ast.Name(id="value", ctx=ast.Load()))), "C46.sign-free-grouping"),
     ("minus sign dropped for negatives", _m("friendly_number", replace_expr(lambda n: isinstance(n, ast.IfExp) and isinstance(n.body, ast.Constant) and n.body.value == "-", lambda n: ast.Constant(value=""))), "C46.sign-free-grouping"),
     ("skew window compared against days only", _m("format_date", replace_expr(lambda n: isinstance(n, ast.Compare) and "total_seconds" in _src(n), lambda n: parse_expr("(date - now).days == 0"))), "C46.future-full-format"),
